@@ -8,9 +8,13 @@ package verifrt
 import (
 	"encoding/json"
 	"fmt"
+	"math/rand"
+	"runtime"
 	"os"
 	"reflect"
+	"strconv"
 	"strings"
+	"sync"
 	"unsafe"
 )
 
@@ -24,6 +28,7 @@ type T struct {
 	reach    []string
 	fatal    func(string)
 	occ      map[string]int
+	mu       sync.Mutex // free-running threads share the draw source
 }
 
 // RuntimeError is the dynamic type of run-time panics raised by the symbolic
@@ -48,6 +53,8 @@ func key(name string, idx []int) string {
 }
 
 func (v *T) draw(name string, idx []int, bits uint) uint64 {
+	v.mu.Lock()
+	defer v.mu.Unlock()
 	k := key(name, idx)
 	if v.occ == nil {
 		v.occ = map[string]int{}
@@ -107,7 +114,9 @@ func (v *T) Assume(c bool) {
 // Assert states the property. Natively a failure is recorded and ends the run.
 func (v *T) Assert(c bool, id string) {
 	if !c {
+		v.mu.Lock()
 		v.Failed = append(v.Failed, id)
+		v.mu.Unlock()
 		panic(stop{"assert " + id})
 	}
 }
@@ -117,6 +126,8 @@ func (v *T) Reach(label string) { v.reach = append(v.reach, label) }
 
 // Observe logs a value; symbolic and native logs are compared (translator validation).
 func (v *T) Observe(label string, x uint64) {
+	v.mu.Lock()
+	defer v.mu.Unlock()
 	v.obs = append(v.obs, fmt.Sprintf("%s=%d", label, x))
 }
 
@@ -219,6 +230,9 @@ func RunNative(t TB, name string, entry func(*T)) {
 		if in.Kind == "cex" || in.Kind == "known" {
 			attempts = 12
 		}
+		if n, err := strconv.Atoi(os.Getenv("VERIF_ATTEMPTS")); err == nil && n > 0 {
+			attempts = n
+		}
 		var v *T
 		res := Result{}
 		for a := 0; a < attempts; a++ {
@@ -293,5 +307,161 @@ func SetUnexported(obj interface{}, path string, val interface{}) {
 			f = f.Elem()
 		}
 		cur = f
+	}
+}
+
+// ---- threads ----
+//
+// Threads runs fns as concurrent threads. Under the symbolic executor every schedule
+// with at most `bound` preemptions is explored (scheduling points before acquire-like
+// synchronisation operations, plus a happens-before race detector). Natively there are
+// two modes:
+//   - schedule replay (the draw file carries sched_<k> entries and the code under test was
+//     compiled from the instrumented overlay): one goroutine per thread, exactly one of them
+//     running at a time, the baton changing hands at Point()/Acquire() as recorded;
+//   - free ($VERIF_THREADS=free, used under `go test -race` to confirm data races): the
+//     threads run as ordinary goroutines.
+type nthread struct {
+	id     int
+	resume chan struct{}
+	done   bool
+}
+
+type nsched struct {
+	v       *T
+	threads []*nthread
+	cur     int
+	k       int
+	abort   interface{}
+	diverge string
+}
+
+var curSched *nsched
+
+func (s *nsched) point() {
+	me := s.threads[s.cur]
+	name := fmt.Sprintf("sched_%d", s.k)
+	s.k++
+	x, ok := s.v.draws[name]
+	next := me
+	if ok && int(x) < len(s.threads) {
+		next = s.threads[int(x)]
+	} else if me.done {
+		// past the recorded schedule: run whatever is left, lowest id first, main last
+		next = nil
+		for _, t := range s.threads[1:] {
+			if !t.done {
+				next = t
+				break
+			}
+		}
+		if next == nil {
+			next = s.threads[0]
+		}
+	}
+	if next.done {
+		s.diverge = fmt.Sprintf("schedule names finished thread %d at point %d", next.id, s.k-1)
+		next = s.threads[0]
+	}
+	if next == me {
+		return
+	}
+	s.cur = next.id
+	next.resume <- struct{}{}
+	if !me.done {
+		<-me.resume
+	}
+}
+
+// P is the identity preceded by a scheduling point.
+func P[T any](x T) T {
+	Point()
+	return x
+}
+
+// Point is a scheduling point (inserted by the replay instrumentation before
+// synchronisation operations; a no-op outside schedule replay).
+func Point() {
+	if s := curSched; s != nil {
+		s.point()
+	}
+}
+
+// Acquire is the replay form of Lock/RLock: a scheduling point followed by the
+// non-blocking acquisition, which the recorded schedule guarantees to succeed.
+func Acquire(try func() bool, block func()) {
+	s := curSched
+	if s == nil {
+		block()
+		return
+	}
+	_, more := s.v.draws[fmt.Sprintf("sched_%d", s.k)]
+	s.point()
+	if !try() {
+		if !more {
+			// the recorded schedule ends here: every thread is blocked
+			s.v.Failed = append(s.v.Failed, "deadlock")
+			panic(stop{"deadlock"})
+		}
+		s.diverge = "lock not available at a point where the recorded schedule acquires it"
+		panic(stop{"schedule diverged"})
+	}
+}
+
+func (v *T) Threads(bound int, fns ...func()) {
+	_, scheduled := v.draws["sched_0"]
+	if os.Getenv("VERIF_THREADS") == "free" || !scheduled {
+		done := make(chan interface{}, len(fns))
+		for _, f := range fns {
+			f := f
+			go func() {
+				defer func() { done <- recover() }()
+				for j := rand.Intn(4); j > 0; j-- {
+					runtime.Gosched()
+				}
+				f()
+			}()
+		}
+		var first interface{}
+		for range fns {
+			if r := <-done; r != nil && first == nil {
+				first = r
+			}
+		}
+		if first != nil {
+			panic(first)
+		}
+		return
+	}
+	s := &nsched{v: v}
+	main := &nthread{id: 0, resume: make(chan struct{})}
+	s.threads = append(s.threads, main)
+	for i, f := range fns {
+		t := &nthread{id: i + 1, resume: make(chan struct{})}
+		s.threads = append(s.threads, t)
+		f := f
+		go func() {
+			<-t.resume
+			defer func() {
+				if r := recover(); r != nil {
+					s.abort = r
+					t.done = true
+					s.cur = 0
+					main.resume <- struct{}{}
+				}
+			}()
+			f()
+			t.done = true
+			s.point()
+		}()
+	}
+	curSched = s
+	defer func() { curSched = nil }()
+	s.point()
+	if s.abort != nil {
+		panic(s.abort)
+	}
+	if s.diverge != "" {
+		v.missing = append(v.missing, "schedule diverged: "+s.diverge)
 	}
 }
